@@ -142,6 +142,13 @@ func RunECDSA(raw json.RawMessage, seed int64) (res Result) {
 	msg := make([]byte, []int{0, 1, 31, 32, 100, 1000}[rng.Intn(6)])
 	rng.Read(msg)
 	h, refDigest := hasherOf(c.Hasher, rng)
+	// a hasher that was used before and holds pending input is still a hasher of that algorithm: the message digest is
+	// ComputeHash(message), independent of anything written earlier (whole blocks of every rate, and odd lengths)
+	if h != nil && rng.Intn(2) == 0 {
+		pend := make([]byte, []int{1, 64, 72, 104, 128, 135, 136, 137, 144, 168, 208, 272, 336}[rng.Intn(13)])
+		rng.Read(pend)
+		h.Write(pend)
+	}
 	signH, signRef := h, refDigest
 	if c.Hasher == "nil" || c.Hasher == "KMAC128-31" || c.Hasher == "KMAC128-16" {
 		signH, signRef = hasherOf("SHA3_256", rng) // the candidate is made with a good hasher, the verifier gets the bad one
@@ -820,6 +827,81 @@ func RunKeyGen(raw json.RawMessage, seed int64) (res Result) {
 			}
 		case "Redecode":
 			sk = decode(new(big.Int).SetBytes(sk.Encode()))
+		}
+	}
+	return
+}
+
+// RunStructuredScalars: private keys DECODED from (and, for BLS, aggregated to) scalars with structure in their machine words - a
+// power of two, a multiple of 2^64 / 2^128 / 2^192, one word zero or all ones at each position, only one word set - must have the
+// public key scalar * generator like any other (C12: "for every scalar in range").
+func RunStructuredScalars(seed int64) (res Result) {
+	res.Violations = []Violation{}
+	defer func() {
+		if r := recover(); r != nil {
+			res.Violations = append(res.Violations, Violation{"C09", "NoPanic", fmt.Sprintf("structured scalars: panic: %v", r)})
+		}
+	}()
+	rng := rand.New(rand.NewSource(seed))
+	one := big.NewInt(1)
+	word := new(big.Int).Sub(new(big.Int).Lsh(one, 64), one)
+	for _, an := range []string{"BLS", "P-256", "secp256k1"} {
+		algo, cur, order := algoOf(an)
+		var scalars []*big.Int
+		put := func(x *big.Int) {
+			x = new(big.Int).Mod(x, order)
+			if x.Sign() != 0 {
+				scalars = append(scalars, x)
+			}
+		}
+		rnd := func() *big.Int {
+			b := make([]byte, 40)
+			rng.Read(b)
+			return new(big.Int).Mod(new(big.Int).SetBytes(b), order)
+		}
+		for k := uint(1); k < 4; k++ {
+			put(new(big.Int).Lsh(one, 64*k))                                 // 2^64k
+			put(new(big.Int).Lsh(big.NewInt(int64(2+rng.Intn(1000))), 64*k)) // small multiple of 2^64k
+			put(new(big.Int).Lsh(new(big.Int).Rsh(rnd(), 64*k), 64*k))       // random with the k low words zero
+			put(new(big.Int).Sub(new(big.Int).Lsh(one, 64*k), one))          // k low words all ones
+			put(new(big.Int).AndNot(rnd(), new(big.Int).Lsh(word, 64*k)))    // random with word k zero
+			put(new(big.Int).Or(rnd(), new(big.Int).Lsh(word, 64*k)))        // random with word k all ones
+		}
+		put(new(big.Int).AndNot(rnd(), word)) // low word zero
+		put(new(big.Int).Lsh(one, 32))
+		put(new(big.Int).Lsh(one, 255-uint(rng.Intn(3))))
+		for _, s := range scalars {
+			sb := make([]byte, 32)
+			s.FillBytes(sb)
+			res.Evals++
+			sk, err := crypto.DecodePrivateKey(algo, sb)
+			if err != nil {
+				res.Violations = append(res.Violations, Violation{"C12", "DecodeInRange", fmt.Sprintf("%s scalar %x refused: %v", an, sb, err)})
+				continue
+			}
+			if pk := sk.PublicKey().Encode(); !bytes.Equal(pk, refPublicKey(an, cur, s)) {
+				res.Violations = append(res.Violations, Violation{"C12", "PublicKeyIsScalarTimesGenerator", fmt.Sprintf("%s private key %x (structured machine words): public key %x is not scalar * generator", an, sb, pk)})
+			}
+			if cur == nil && len(res.Violations) == 0 && rng.Intn(3) == 0 {
+				// the same scalar reached by aggregation: (s - a) + a with a random
+				a := rnd()
+				b := new(big.Int).Mod(new(big.Int).Sub(s, a), order)
+				if a.Sign() == 0 || b.Sign() == 0 {
+					continue
+				}
+				ab, bb := make([]byte, 32), make([]byte, 32)
+				a.FillBytes(ab)
+				b.FillBytes(bb)
+				ka, _ := crypto.DecodePrivateKey(algo, ab)
+				kb, _ := crypto.DecodePrivateKey(algo, bb)
+				agg, err := crypto.AggregateBLSPrivateKeys([]crypto.PrivateKey{ka, kb})
+				res.Evals++
+				if err != nil || !bytes.Equal(agg.Encode(), sb) {
+					res.Violations = append(res.Violations, Violation{"C12", "Deterministic", fmt.Sprintf("aggregate of two keys summing to %x: %v", sb, err)})
+				} else if pk := agg.PublicKey().Encode(); !bytes.Equal(pk, refPublicKey(an, cur, s)) {
+					res.Violations = append(res.Violations, Violation{"C12", "PublicKeyIsScalarTimesGenerator", fmt.Sprintf("aggregated BLS private key %x (structured machine words): public key %x is not scalar * generator", sb, pk)})
+				}
+			}
 		}
 	}
 	return
